@@ -722,7 +722,23 @@ pub fn rand_nonmutating(rng: &mut Rng, orig: u16, n: usize, labels: &[(String, u
     }
 }
 
+/// An `eval` command: every kind of instruction (label operands use the session's labels),
+/// off-limits ones and malformed text.
+pub fn rand_eval(rng: &mut Rng, labels: &[(String, usize)]) -> Cmd {
+    let lbl = if labels.is_empty() || rng.chance(1, 10) { "nolabel".to_string() } else { rng.pick(labels).0.clone() };
+    let forms: [&str; 30] = [
+        "add r1 r1 #1", "add r2 r1 r7", "and r2 r2 #0", "and r0 r7 #-1", "not r3 r3", "str r7 r0 #0", "str r1 r0 #-1",
+        "ldr r4 r0 #1", "ldr r4 r7 #-3", "st r5 {}", "ld r6 {}", "lea r0 {}", "sti r1 {}", "ldi r2 {}", "jmp r7", "jsrr r0",
+        "ret", "jsr {}", "br {}", "brz {}", "halt", "rti", "trap x30", "out", "putn", "push r1", "pop r2", "foo",
+        "add r1 r1", "add r1 r1 #1 #2",
+    ];
+    Cmd::Eval(rng.pick(&forms).replace("{}", &lbl))
+}
+
 pub fn rand_mutating(rng: &mut Rng, orig: u16, n: usize, labels: &[(String, usize)]) -> Cmd {
+    if rng.chance(1, 6) {
+        return rand_eval(rng, labels);
+    }
     match rng.below(6) {
         0 | 1 => Cmd::MoveReg(rng.below(8) as u8, *rng.pick(&[0u16, 1, 0x7FFF, 0x8000, 0xFFFF, 0x1234])),
         2 | 3 => Cmd::MoveMem(rand_loc(rng, orig, n, labels), rng.u16()),
@@ -920,7 +936,12 @@ fn directed(tag: &'static str) -> Vec<(DbgCase, &'static str)> {
                     "D12" => {
                         match variant {
                             0 => cmds.push(Cmd::Goto(Loc::Addr(orig))),
-                            1 => {}
+                            1 => cmds.push(Cmd::Eval(match k {
+                                0 => "str r7 r0 #0".into(),
+                                1 => "str r7 r0 #-1".into(),
+                                2 => "st r7 zq0".into(),
+                                _ => "add r1 r1 #1".into(),
+                            })),
                             _ => {
                                 cmds.push(Cmd::StepOver);
                                 cmds.push(Cmd::Goto(Loc::Addr(orig)));
@@ -1078,7 +1099,8 @@ fn gen_case(rng: &mut Rng, tag: &'static str) -> (DbgCase, &'static str) {
     c.cmds = cmds;
     // one session in five runs in the normal output mode (programs without the REG trap, whose
     // table differs between the modes)
-    c.nm = !c.words.contains(&0xF027) && rng.chance(1, 5);
+    // (and without `eval`, whose refusal messages differ between the modes)
+    c.nm = !c.words.contains(&0xF027) && !c.cmds.iter().any(|x| matches!(x, Cmd::Eval(_))) && rng.chance(1, 5);
     (c, p.kind)
 }
 
@@ -1393,7 +1415,11 @@ pub fn gen_text_case(rng: &mut Rng) -> TextCase {
             lines.push(" ".repeat(rng.below(3) as usize));
             continue;
         }
-        let c = if rng.chance(1, 4) { rand_mutating(rng, p.orig, n, &base.labels) } else { rand_nonmutating(rng, p.orig, n, &base.labels) };
+        let mut c = if rng.chance(1, 4) { rand_mutating(rng, p.orig, n, &base.labels) } else { rand_nonmutating(rng, p.orig, n, &base.labels) };
+        if matches!(c, Cmd::Eval(_)) {
+            // what `eval` prints is only comparable between its echo markers (structured sessions)
+            c = Cmd::Reset;
+        }
         lines.push(spell_cmd(rng, &c));
     }
     if rng.chance(1, 2) {
